@@ -529,8 +529,8 @@ def rtc_dispatch(names, tier):
 
     rec = Recorder(PID)
     first, second = dict(L._HANDLED_FUNCTIONS), dict(L._HANDLED_SECOND_ARG_FUNCTIONS)
-    batches = [(), (2,), (1, 3)] if tier == "quick" else [(), (2,), (1,), (1, 3), (2, 2)]
-    sizes = [1, 3] if tier == "quick" else [1, 2, 3, 4]
+    batches = [(), (2,), (1, 3), (1,)] if tier == "quick" else [(), (2,), (1,), (1, 3), (2, 2), (3, 1, 2)]
+    sizes = [1, 3, 4] if tier == "quick" else [1, 2, 3, 4, 6]
     unreg = _unregistered()
     for label, c, mk, d in H._instances(names, tier, batches=batches, sizes=sizes):
         if mk is None:
@@ -621,8 +621,22 @@ def rtc_units(tier):
 
 
 RTC_META = {
-    "explanation": "bounded run-time contracts: every entry of the two torch dispatch tables is called literally for every zoo class x operand kind x both operand orders and "
-                   "compared with the method the table names and with torch on dense operands; unregistered functions must raise NotImplementedError",
-    "assumptions": [],
-    "families": "",
+    "explanation": "bounded run-time contracts: every entry of the two torch dispatch tables (read from the live module) is called literally for every zoo class x operand "
+                   "kind x both operand orders and compared (a) with the method the table names (same value or same exception type) and (b) with torch on dense operands; "
+                   "a registered function without a recipe is a failure; unregistered functions must raise NotImplementedError; table sizes have a floor (27/9) and every "
+                   "method name must resolve with a compatible signature on every operator class",
+    "assumptions": [
+        "abs/exp/log/sqrt act on the structural support (for diagonal operators: the diagonal, which is also the matrix function); they are compared with torch.f of the "
+        "dense diagonal, not with the elementwise function of the structural zeros",
+        "for solve / logdet / cholesky / eigh / eigvalsh / svd / inverse / solve_triangular (owned by C04-C06) only dispatch equivalence with the method is required on "
+        "every class; equality with torch on dense is checked on the well-conditioned positive definite (resp. triangular) cases only, up to the non-uniqueness of the "
+        "factorisation (sorted spectra, reconstruction)",
+        "a python scalar as the other operand of +/-: the dense value or an explicit refusal (TypeError/NotImplementedError/RuntimeError/ValueError) is accepted, an "
+        "internal AttributeError is not",
+        "torch.diagonal with the default dims is compared on unbatched operators only (torch's default dims are 0,1, the library's -2,-1)",
+    ],
+    "families": "quick: 62 cases x (float64: batch shapes (), (2,), (1,3), (1,) x sizes 1,3,4; float32 sub-grid) x every entry of _HANDLED_FUNCTIONS (27) and "
+                "_HANDLED_SECOND_ARG_FUNCTIONS (9) x operand kinds (tensor same/broadcast batch, 0-d tensor, batch of constants, python float/int/zero, up to 11 other "
+                "operators incl. parent/child class pairs, alpha keyword) + 10 binary operators in both orders + 10 reflected dunder methods + 52 unregistered torch "
+                "functions; thorough: 6 batch shapes x sizes 1,2,3,4,6, full dtype product",
 }
